@@ -229,6 +229,13 @@ class ChainBuild(Suite):
                    files={}, base={'name': 'm', 'data': dict({'tasks': ['@M.*'], 'x': 1}, **({} if where == 'ctx' else {'y': val}))},
                    context=({'dict': {'y': val}} if where == 'ctx' else None))
               for dflt, val in ((1, 1.0), (1, True), (0, False), (0, 0.0), (1.0, 1)) for where in ('cfg', 'ctx')],
+            # the main config excludes a class that a mounted config declares; its consumers there reach it through an
+            # optional input and through a pattern
+            dict(classes=[dict(K(0, 'T'), name='t'), dict(K(1, 'Consumer', param_inputs=[dict(ref={'name': 't'}, default=[99])]), name='consumer'),
+                          dict(K(2, 'Coll', meta_inputs=[{'name': '~t.*'}]), name='coll')],
+                 files={'variant.json': {'tasks': ['@M.*']}},
+                 base={'name': 'main', 'data': {'tasks': ['@M.*'], 'excluded_tasks': ['@M.T'], 'uses': 'variant.json as v'}},
+                 context=None, hist=True),
             # the same pattern input in two namespaces whose matching tasks differ
             dict(classes=[dict(K(0, 'X1'), name='x1'), dict(K(1, 'X2'), name='x2'), dict(K(2, 'X3'), name='x3'),
                           dict(K(3, 'Collect', meta_inputs=[{'name': '~x.*'}]), name='collect')],
@@ -261,6 +268,56 @@ class ChainBuild(Suite):
             dict(classes=[K(0, 'Abc', params=[P('x')])],
                  files={'run_a/model.json': {'tasks': ['@M.Abc'], 'x': 1}, 'run_b/model.json': {'tasks': ['@M.Abc'], 'x': 2}},
                  base={'name': 'main', 'data': {'uses': ['run_b/model.json as ns', 'run_a/model.json as ns']}}, context=None),
+            # two config files with one file name in different directories, declaring different tasks, without a namespace,
+            # under one namespace, and reached through another config
+            dict(classes=[dict(K(0, 'A', params=[P('x')]), name='part_a'), dict(K(1, 'B', params=[P('x')]), name='part_b'),
+                          dict(K(2, 'Dep', meta_inputs=[{'cls': 0}, {'cls': 1}]), name='dep'),
+                          dict(K(3, 'Coll', meta_inputs=[{'name': '~part_.*'}]), name='coll')],
+                 files={'images/config.json': {'tasks': ['@M.A'], 'x': 1}, 'texts/config.json': {'tasks': ['@M.B'], 'x': 2}},
+                 base={'name': 'main', 'data': {'tasks': ['@M.Dep', '@M.Coll'], 'uses': ['images/config.json', 'texts/config.json']}}, context=None),
+            dict(classes=[dict(K(0, 'A', params=[P('x')]), name='part_a'), dict(K(1, 'B', params=[P('x')]), name='part_b'),
+                          dict(K(2, 'Coll', meta_inputs=[{'name': '~part_.*'}]), name='coll')],
+                 files={'images/config.json': {'tasks': ['@M.A'], 'x': 1}, 'texts/config.json': {'tasks': ['@M.B', '@M.Coll'], 'x': 2},
+                        'both.json': {'uses': ['texts/config.json', 'images/config.json']}},
+                 base={'name': 'main', 'data': {'uses': ['both.json as ns']}}, context=None),
+            # a task whose Meta derives from the Meta of its base task and inherits the inputs and parameters from it
+            dict(classes=[dict(K(0, 'Src', params=[P('x')]), name='src'),
+                          dict(K(1, 'Base', meta_inputs=[{'cls': 0}], params=[P('y', default=[1])]), name='base'),
+                          dict(K(2, 'Derived', meta_inputs=[{'cls': 0}], params=[P('y', default=[1])]), name='derived', meta_base=1),
+                          dict(K(3, 'Top', meta_inputs=[{'cls': 2}]), name='top')],
+                 files={}, base={'name': 'm', 'data': {'tasks': ['@M.*'], 'x': 1, 'y': 2}}, context=None, hist=True),
+            # the same with an inherited required input that is not declared anywhere: construction fails
+            dict(classes=[dict(K(0, 'Src', params=[P('x')]), name='src'),
+                          dict(K(1, 'Base', meta_inputs=[{'cls': 0}], abstract=True), name='base'),
+                          dict(K(2, 'Derived', meta_inputs=[{'cls': 0}], abstract=False), name='derived', meta_base=1)],
+                 files={}, base={'name': 'm', 'data': {'tasks': ['@M.Derived'], 'x': 1}}, context=None),
+            # a short form that also matches the dependant itself: `dataset` listed by clean:dataset while raw:dataset exists
+            # is ambiguous - as a required input, as an optional one, inside a namespace, in both declaration orders
+            dict(classes=[dict(K(0, 'RawDs', group='raw'), name='dataset'),
+                          dict(K(1, 'CleanDs', group='clean', meta_inputs=[{'name': 'dataset'}]), name='dataset')],
+                 files={}, base={'name': 'm', 'data': {'tasks': ['@M.*']}}, context=None),
+            dict(classes=[dict(K(0, 'CleanDs', group='clean', param_inputs=[dict(ref={'name': 'dataset'}, default=[99])]), name='dataset'),
+                          dict(K(1, 'RawDs', group='raw'), name='dataset')],
+                 files={}, base={'name': 'm', 'data': {'tasks': ['@M.*']}}, context=None),
+            dict(classes=[dict(K(0, 'RawDs', group='raw'), name='dataset'),
+                          dict(K(1, 'CleanDs', group='clean', meta_inputs=[{'name': 'dataset'}]), name='dataset')],
+                 files={'p.json': {'tasks': ['@M.*']}}, base={'name': 'm', 'data': {'uses': 'p.json as n'}}, context=None),
+            # the unambiguous spellings of the same wiring
+            dict(classes=[dict(K(0, 'RawDs', group='raw'), name='dataset'),
+                          dict(K(1, 'CleanDs', group='clean', meta_inputs=[{'name': 'raw:dataset'}]), name='dataset'),
+                          dict(K(2, 'Top', meta_inputs=[{'name': 'clean:dataset'}]), name='top')],
+                 files={}, base={'name': 'm', 'data': {'tasks': ['@M.*']}}, context=None),
+            # inputs whose full names are prefixes of one another, the longer one going on with a character below `=`
+            # (a digit, `:`, `-` is not a name character): the inputs part of the key text is sorted by name
+            dict(classes=[dict(K(0, 'M1', params=[P('x')]), name='model'), dict(K(1, 'M2', params=[P('x')]), name='model2'),
+                          dict(K(2, 'M3', group='model', params=[P('x')]), name='sub'), dict(K(3, 'M4', params=[P('x')]), name='model_b'),
+                          dict(K(4, 'Dep', meta_inputs=[{'cls': 1}, {'cls': 3}, {'cls': 2}, {'cls': 0}]), name='dep'),
+                          dict(K(5, 'Top', meta_inputs=[{'cls': 4}]), name='top')],
+                 files={}, base={'name': 'm', 'data': {'tasks': ['@M.*'], 'x': 1}}, context=None),
+            dict(classes=[dict(K(0, 'M1', params=[P('x')]), name='x'), dict(K(1, 'M2', params=[P('x')]), name='x1'),
+                          dict(K(2, 'Dep', meta_inputs=[{'name': 'n::x1'}, {'name': 'n::x'}, {'name': 'n2::x'}]), name='dep')],
+                 files={'p.json': {'tasks': ['@M.M1', '@M.M2'], 'x': 2}},
+                 base={'name': 'm', 'data': {'tasks': ['@M.Dep'], 'uses': ['p.json as n', 'p.json as n2']}}, context=None),
             # an input in a nested namespace whose name contains the outer namespace's name
             dict(classes=[dict(K(0, 'Producer'), name='producer'),
                           dict(K(1, 'Consumer', meta_inputs=[{'name': 'basemodel::producer'}]), name='consumer')],
